@@ -675,7 +675,17 @@ class Machine:
                 r = self.ienv.new_sym(base.lower())
         elif base in ("BitAnd", "BitOr", "BitXor", "Shl", "Shr"):
             if ca and cb:
-                r = {"BitAnd": a & b, "BitOr": a | b, "BitXor": a ^ b, "Shl": a << b, "Shr": a >> b}[base]
+                if base in ("Shl", "Shr"):
+                    lo_, hi_ = INT_RANGE.get(ty, (-2**63, 2**63 - 1))
+                    width = (hi_ - lo_ + 1).bit_length() - 1
+                    b = b % width                      # the shift amount is taken modulo the bit width
+                    if base == "Shl":
+                        r = a << b
+                        r = (r - lo_) % (hi_ - lo_ + 1) + lo_   # wrap into the operand type
+                    else:
+                        r = a >> b                     # arithmetic for signed, logical for unsigned (a >= 0)
+                else:
+                    r = {"BitAnd": a & b, "BitOr": a | b, "BitXor": a ^ b}[base]
             else:
                 r = self.ienv.new_sym(base.lower())
         else:
@@ -757,9 +767,18 @@ class Machine:
                 lo, hi = INT_RANGE[tys]
                 if not (lo <= v <= hi):
                     v = (v - lo) % (hi - lo + 1) + lo
+            elif isinstance(v, Lin) and tys in INT_RANGE:
+                # `as` to a narrower (or differently signed) integer type truncates: in range the value
+                # is kept, out of range it becomes some other value of the target type
+                lo, hi = INT_RANGE[tys]
+                if self.truth(("ovf", v, lo, hi), span, "as-cast"):
+                    self.notes.append(("as-cast-truncation", span, tys, simp(v), self.stack[-1] if self.stack else None))
+                    return self.ienv.new_sym("wrapped_as_" + tys, max(lo, -SYM_HI), min(hi, SYM_HI))
             return v
         if kind == "IntToFloat":
             if is_int(v):
+                if tys == "f32" and not isinstance(simp(v), int):
+                    return F.fn("lossy_f32", F.i2f(v))   # 24 bits: a count above 2^24 is rounded
                 return F.i2f(v)
             if isinstance(v, bool):
                 return F.lit(1.0 if v else 0.0)
